@@ -480,3 +480,178 @@ Ltac prop_step leaf :=
 Ltac leaf_conv :=
   idtac; first [ match goal with H : ?P ?m |- ?P _ => exact H end
                | match goal with |- ?P (set _ _ ?x) => change (P x) end ].
+
+(* ---------------------------------------------------------------- queued removals happen *)
+(* a connection queued for removal is gone when the work loop is done: the queue is emptied,
+   shutdown_connection deletes the connection, and nothing in the work loop adds a connection *)
+Definition queued_or_gone (c : conn) (m : M) : Prop :=
+  (exists sd, (c, sd) ∈ w_remove_conns (mw m)) \/ conns (ms m) !! c = None.
+
+Lemma qg_push c m c' sd m' :
+  w_remove_conns (mw m') = (c', sd) :: w_remove_conns (mw m) -> conns (ms m') = conns (ms m) ->
+  queued_or_gone c m -> queued_or_gone c m'.
+Proof.
+  intros Hw Hs [[sd0 H]|H]; [left|right].
+  - exists sd0. rewrite Hw. right. exact H.
+  - rewrite Hs. exact H.
+Qed.
+
+Lemma qg_delete c m c' m' :
+  w_remove_conns (mw m') = w_remove_conns (mw m) -> conns (ms m') = delete c' (conns (ms m)) ->
+  queued_or_gone c m -> queued_or_gone c m'.
+Proof.
+  intros Hw Hs [[sd0 H]|H]; [left|right].
+  - exists sd0. rewrite Hw. exact H.
+  - rewrite Hs. destruct (decide (c = c')) as [->|Hne]; [apply lookup_delete|].
+    rewrite lookup_delete_ne by congruence. exact H.
+Qed.
+
+Lemma qg_insert c m c1 cs cs' m' :
+  conns (ms m) !! c1 = Some cs ->
+  w_remove_conns (mw m') = w_remove_conns (mw m) -> conns (ms m') = <[c1 := cs']> (conns (ms m)) ->
+  queued_or_gone c m -> queued_or_gone c m'.
+Proof.
+  intros Hc Hw Hs [[sd0 H]|H]; [left|right].
+  - exists sd0. rewrite Hw. exact H.
+  - rewrite Hs. rewrite lookup_insert_ne; [exact H|]. intros ->. congruence.
+Qed.
+
+Ltac leaf_qg :=
+  idtac;
+  first
+    [ match goal with H : queued_or_gone ?c ?m |- queued_or_gone ?c _ => exact H end
+    | match goal with |- queued_or_gone ?c (push_remove ?x _ _) =>
+        eapply (qg_push c x); [reflexivity|reflexivity|leaf_qg] end
+    | match goal with |- queued_or_gone ?c (set mo _ ?x) => change (queued_or_gone c x); leaf_qg end
+    | match goal with |- queued_or_gone ?c (set _ _ ?x) =>
+        eapply (qg_insert c x); [eassumption|reflexivity|reflexivity|leaf_qg] end
+    | match goal with |- ?P (set _ _ ?x) => change (P x) end ].
+
+Section QueuedGone.
+  Context (c : conn).
+  Local Notation P := (queued_or_gone c).
+
+  Lemma remove_end_qg m k e : P m -> oprop P (remove_end m k e).
+  Proof. intros H. unfold remove_end. repeat prop_step leaf_qg. Qed.
+
+  Lemma remove_service_qg m k : P m -> oprop P (remove_service m k).
+  Proof. intros H. unfold remove_service. repeat prop_step leaf_qg. Qed.
+
+  Lemma remove_object_qg m k : P m -> oprop P (remove_object m k).
+  Proof.
+    intros H. unfold remove_object.
+    repeat first [ match goal with |- oprop _ (remove_service _ _) => apply remove_service_qg end
+                 | prop_step leaf_qg ]; assumption.
+  Qed.
+
+  Lemma remove_listener_qg m k : P m -> P (remove_listener m k).
+  Proof. intros H. unfold remove_listener. destruct (listeners (ms m) !! k); exact H. Qed.
+
+  Lemma bus_qg m ev : P m -> oprop P (bus m ev).
+  Proof. intros H. unfold bus. repeat prop_step leaf_qg. Qed.
+
+  Lemma abort_call_qg m b callee : P m -> oprop P (abort_call m b callee).
+  Proof. intros H. unfold abort_call. repeat prop_step leaf_qg. Qed.
+
+  (* removing [c] itself establishes the predicate; removing another connection keeps it *)
+  Lemma shutdown_conn_qg m c' sd : c' = c \/ P m -> oprop P (shutdown_conn m c' sd).
+  Proof.
+    intros H. unfold shutdown_conn. destruct (conns (ms m) !! c') as [cs|] eqn:Hc.
+    - set (m1 := if sd && cs_alive cs then _ else _).
+      assert (H1 : P m1).
+      { assert (H0 : P (m <| ms; conns ::= delete c' |>)).
+        { destruct H as [->|H]; [right; apply lookup_delete|].
+          eapply qg_delete; [| |exact H]; reflexivity. }
+        subst m1. destruct (sd && cs_alive cs); exact H0. }
+      clearbody m1.
+      repeat first
+        [ match goal with
+          | |- oprop _ (remove_object _ _) => apply remove_object_qg
+          | |- oprop _ (remove_end _ _ _) => apply remove_end_qg
+          | |- queued_or_gone _ (remove_listener _ _) => apply remove_listener_qg
+          end
+        | prop_step leaf_qg ]; assumption.
+    - destruct H as [->|H]; [right; exact Hc|exact H].
+  Qed.
+
+  Lemma settle_one_qg m r : P m -> settle_one m = Some r -> oprop P r.
+  Proof.
+    intros H. unfold settle_one. destruct (w_remove_conns (mw m)) as [|[c' sd] q] eqn:Eq.
+    - assert (H' : forall m', w_remove_conns (mw m') = w_remove_conns (mw m) -> conns (ms m') = conns (ms m) -> P m').
+      { intros m' Hw Hs. destruct H as [[sd0 H]|H]; [left; exists sd0; rewrite Hw; exact H|right; rewrite Hs; exact H]. }
+      repeat match goal with
+             | |- match ?l with [] => _ | _ :: _ => _ end = Some _ -> _ => destruct l as [|? ?]
+             | |- (let '(_, _) := ?p in _) = Some _ -> _ => destruct p
+             end; try discriminate; intros [= <-];
+        repeat first
+          [ match goal with
+            | |- oprop _ (abort_call _ _ _) => apply abort_call_qg
+            | |- oprop _ (bus _ _) => apply bus_qg
+            | |- queued_or_gone _ _ => solve [apply H'; reflexivity]
+            end
+          | prop_step leaf_qg ].
+    - intros [= <-]. apply shutdown_conn_qg. destruct H as [[sd0 H]|H].
+      + rewrite Eq in H. apply elem_of_cons in H as [[= -> ->]|H]; [left; reflexivity|].
+        right. left. exists sd0. exact H.
+      + right. right. exact H.
+  Qed.
+
+  Lemma settle_qg fuel : forall m, P m -> oprop P (settle fuel m).
+  Proof.
+    induction fuel as [|fuel IH]; intros m H; cbn [settle];
+      destruct (settle_one m) as [r|] eqn:E; try exact H;
+      pose proof (settle_one_qg m r H E) as Hr; destruct r; cbn in Hr |- *; trivial; apply IH; assumption.
+  Qed.
+End QueuedGone.
+
+(* when the work loop stops normally there is no work left *)
+Lemma settle_done_idle fuel : forall m m', settle fuel m = Done m' -> settle_one m' = None.
+Proof.
+  induction fuel as [|fuel IH]; intros m m'; cbn [settle]; destruct (settle_one m) as [[m1|m1|]|] eqn:E;
+    try discriminate; try (intros [= <-]; exact E); apply IH.
+Qed.
+Lemma settle_never_fails fuel : forall m m', settle fuel m <> Fail m'.
+Proof.
+  induction fuel as [|fuel IH]; intros m m'; cbn [settle]; destruct (settle_one m) as [[m1|m1|]|];
+    try discriminate; apply IH.
+Qed.
+Lemma settle_one_None_queue m : settle_one m = None -> w_remove_conns (mw m) = [].
+Proof. unfold settle_one. destruct (w_remove_conns (mw m)) as [|[? ?] ?]; [reflexivity|discriminate]. Qed.
+
+(* the step-level statement: whoever the handler queued for removal is not connected afterwards *)
+Theorem queued_removed s e f bs s' o m c sd :
+  step s e f bs = Done (s', o) -> step_handler s e f bs = Done m -> (c, sd) ∈ w_remove_conns (mw m) ->
+  conns s' !! c = None.
+Proof.
+  intros Hstep Hh Hq. apply step_Done in Hstep as (m1 & m' & Hh' & Hs & -> & _).
+  rewrite Hh in Hh'. injection Hh' as <-.
+  destruct Hs as [Hs|Hs]; [|exfalso; exact (settle_never_fails _ _ _ Hs)].
+  pose proof (settle_qg c (fuel_for (ms m)) m (or_introl (ex_intro _ sd Hq))) as Hp. rewrite Hs in Hp.
+  apply settle_done_idle, settle_one_None_queue in Hs. destruct Hp as [[sd0 Hp]|Hp]; [|exact Hp].
+  rewrite Hs in Hp. apply elem_of_nil in Hp. contradiction.
+Qed.
+
+(* a failing handler: the sender is removed *)
+Corollary failed_handler_removed s c x f bs s' o mf :
+  step s (Message c x) f bs = Done (s', o) -> handle (m_init s) c x f bs = Fail mf -> conns s' !! c = None.
+Proof.
+  intros Hstep Hf. eapply (queued_removed _ _ _ _ _ _ (push_remove mf c false) c false); [exact Hstep| |left].
+  cbn [step_handler]. fold (m_init s). rewrite Hf. reflexivity.
+Qed.
+
+(* ---------------------------------------------------------------- traversal, remembering deadness *)
+(* as [prop_step], but the "removal queued" leaf of a send_or_remove comes with the fact that the
+   destination's receiver is gone *)
+Lemma oprop_send_or_remove_d (P : M -> Prop) m c x from :
+  P (m <| mo := mo m ++ [(c, x, from)] |>) -> (alive (ms m) c = false -> P (push_remove m c false)) ->
+  oprop P (send_or_remove m c x from).
+Proof.
+  intros H1 H2. unfold send_or_remove, send. unfold alive in H2. destruct (conns (ms m) !! c) as [cs|]; [|exact I].
+  destruct (cs_alive cs); cbn; auto.
+Qed.
+
+Ltac prop_step_d leaf :=
+  match goal with
+  | |- oprop _ (send_or_remove _ _ _ _) => apply oprop_send_or_remove_d; [|intros ?]
+  | |- _ => prop_step leaf
+  end.
